@@ -178,6 +178,22 @@ def _eqcells_inputs(tier, seed):
             yield (t, key)
 
 
+def _hashcoll_inputs(tier, seed):
+    # distinct values with EQUAL hashes (-1 / -2; 0 / '' ; tuples of them): equality, not the hash, decides what a duplicate is
+    for t in tables((-1, -2, 0, ''), widths=(1,), maxrows=3):
+        for key in (None, 'f0'):
+            yield (t, key)
+    for t in tables((-1, -2), widths=(2,), maxrows=2):
+        for key in (None, 'f0', ('f0', 'f1')):
+            yield (t, key)
+
+
+@group('partition.hashcollisions', _hashcoll_inputs)
+def partition_hashcoll(inp):
+    tbl, key = inp
+    _check_partition(tbl, key, {})
+
+
 @group('partition.eqcells', _eqcells_inputs)
 def partition_eqcells(inp):
     tbl, key = inp
